@@ -366,6 +366,19 @@ def hermes_state(ctx, rule):
     somes = [sh for sh, _, _ in q.def_shapes(b, 0, {}) if not sh.startswith("FromResidual::from_residual(") and sh != "Option::None{}"]
     ok = len(somes) == 1 and q.wild("Option::Some{0:HermesFunctionMap{names:%s.names,mappings:var:Vec<HermesScopeOffset>}}" % ENTRY, somes[0])
     ctx.check(ok, rule, fn, "result:built-here", "the function map returned for a source is built from that source's entry in this very step", detail=str(somes)[:300])
+    # ... and a source's function map is given up (None) only for the reviewed reasons: no entry, an unparsable segment, a
+    # segment without a column. Anything else (a range check that abandons the whole map for one odd entry) changes answers
+    import re as _re
+    nones = []
+    for sh, _, _ in q.def_shapes(b, 0, {}):
+        if sh.startswith("FromResidual::from_residual("):
+            m = _re.search(r"Try::branch\(([\w:]+)\(", sh)
+            nones.append(m.group(1) if m else sh[:50])
+        elif sh == "Option::None{}":
+            nones.append("explicit None")
+    allowed_n = {"Option::as_ref", "Iterator::next", "slice::first", "Result::ok"}
+    ctx.check(set(nones) <= allowed_n, rule, fn, "none:exact", "the function map of a source is abandoned only when the entry is missing, a segment does not parse or a segment has no column",
+              detail=str(sorted(set(nones) - allowed_n)))
     h = ctx.body("hermes::decode_hermes")
     from rules.common import residual_blocks as _rb, result_blocks as _resb
     exits = len(set(_rb(h))) + len(set(_resb(h, "Err")))
